@@ -195,6 +195,20 @@ def _mon_vbswriter(m):
                 counters['C03:closes not observable'] += 1
                 return r
             out = snap[0][vm['start']:]
+            if type(self) is not cls:
+                # for a subclass (IpmWriter) write(bytes) is an internal seam, not part of its contract: it may or may not
+                # route its records through it.  What was seen there is used only if it accounts for every record in the
+                # file; otherwise the file is judged for being the canonical framing of the records it holds.
+                try:
+                    in_file, _ = refb.vbs_records_in(refb.payload_stream(out) if vm['blocked'] else out, max_len=1 << 31)
+                except Exception:      # noqa
+                    in_file = None
+                if in_file is None:
+                    counters['C03:closes not observable'] += 1
+                    return r
+                if len(vm['recs']) != len(in_file):
+                    counters['C03:subclass files judged on their own records'] += 1
+                    vm['recs'] = in_file
             stream = refb.vbs(vm['recs'])
             counters['C03:closes judged'] += 1
             if any(len(x) == 0 for x in vm['recs']):
